@@ -32,6 +32,7 @@ func NewExprEvaluator() *ExprEvaluator {
 //   - Function calls: len(items), isActive(v)
 //   - Literals: 42, "text", true, false.
 func (e *ExprEvaluator) Eval(expression string, env map[string]any) (any, error) {
+	expression = strings.ReplaceAll(expression, "!==", "!=")
 	expression = strings.ReplaceAll(expression, "===", "==")
 
 	// Get or compile the program
